@@ -5,7 +5,7 @@ derived by mc.models.edscript.diff (own LCS, hunks bottom-up) and, where /usr/bi
 ``diff -e`` itself (every such script is first validated by the model's own ed interpreter).  Each script
 is run through  patch_lines(old, patches_from_ed_script(script))  as str and as bytes and must leave
 old == new.  For the pairs of the length <= 3 universe every command line of every script is replaced by
-each of seven malformed commands, and every script is cut at every point inside a text block; each of
+each of eight malformed commands, and every script is cut at every point inside a text block; each of
 these must raise ValueError.
 """
 from .. import core
@@ -23,7 +23,9 @@ BUDGET = {"quick": 240, "thorough": 3000}
 
 LOOKALIKES = ["..\n", ". \n"]
 BADS = [("garbage", "x\n"), ("unknown-command", "1z\n"), ("non-numeric-range", "1,a\n"), ("no-address", "a\n"),
-        ("negative-address", "-1d\n"), ("blank-before-command", "1 d\n"), ("range-on-append", "1,2a\n")]
+        ("negative-address", "-1d\n"), ("blank-before-command", "1 d\n"), ("range-on-append", "1,2a\n"),
+        # beyond DESIGN.md's seven: nothing may follow the command letter (a regex that lost its "$" accepts it)
+        ("trailing-garbage", "1dx\n")]
 MAXLEN = {"quick": 4, "thorough": 5}
 EXT_MAXLEN = 3
 CORRUPT_MAXLEN = 3
